@@ -128,6 +128,11 @@ func RunSeq(sc SeqScenario) (evs []Ev, inconclusive string) {
 		}
 		src, err := s.RegisterTable(t.Name, rows, t.Keys...)
 		srcs[t.Name] = src
+		arows := make([]any, len(rows))
+		for i, r := range rows {
+			arows[i] = AbsRow(r)
+		}
+		in.Log(Ev{"tr": sc.Tr, "e": "table", "name": t.Name, "rows": arows})
 		if err != nil {
 			in.Log(Ev{"tr": sc.Tr, "e": "execerr", "err": "table: " + err.Error()})
 			in.Log(Ev{"tr": sc.Tr, "e": "quiesce"})
